@@ -1,4 +1,4 @@
 from props import PROPS
-HOOK_COMMITS = ['8334f9b', '50da1cb', '127919d']
+HOOK_COMMITS = ['8334f9b', '50da1cb', '127919d', '917cc13']
 NOT_APPLICABLE = {}
 META = {k: v['manifest'] for k, v in PROPS.items()}
